@@ -103,6 +103,43 @@ def relen_scen(rng):
     return s
 
 
+def all_cuts_scens(rng):
+    """One short stream with glitches (single samples over the threshold whose monotone run is too short) close in front
+    of real edges, cut into two blocks at EVERY position: block independence for the cuts that matter is a handful among
+    hundreds, which random partitions rarely hit."""
+    npre = rng.randint(3, 6)
+    npost = rng.choice([4, 6, 8])
+    nsamp = npre + npost
+    mode = rng.choice(["two", "var", "iso"])
+    sign = rng.choice([1, 1, -1])
+    thr = sign * rng.choice([5, 20])
+    nmono = rng.choice([2, 2, 3])
+    total = rng.randint(5, 7) * nsamp
+    base = 1000 if sign > 0 else 60000
+    xs = [base] * total
+    p = npre + rng.randint(2, nsamp)
+    while p < total - nsamp:
+        g = rng.choice([0, 1, 2, 3])          # glitch this many samples before the edge (0: none)
+        if g and p - g - 1 >= 0:
+            xs[p - g - 1] += sign * abs(thr) * 2
+        rise = rng.randint(nmono, nmono + 2)
+        amp = abs(thr) * rise * 2
+        for i in range(p, total):
+            j = i - p
+            d = amp * (j + 1) // rise if j < rise else int(amp * 0.8 ** (j - rise + 1))
+            xs[i] += sign * d
+        p += rng.randint(nsamp + 2, 3 * nsamp)
+    xs = [min(65535, max(0, v)) for v in xs]
+    zero = rng.random() < 0.3 and npre >= 4
+    t = em_trig(mode, thr, nmono, zero)
+    out = []
+    for cut in range(1, total):
+        out.append({"origin": "all-cuts", "nchan": 1, "npre": npre, "nsamp": nsamp, "signed": False, "period": 1000, "frame0": 0, "start": "fresh",
+                    "trig": [t], "steps": [{"k": "trig", "chans": [0], "t": t}, {"k": "block", "n": cut}, {"k": "block", "n": total - cut}],
+                    "data": [xs], "oneblock": True})
+    return out
+
+
 CONSTS = {"EdgeMultiMC.cfg": {"npre": 4, "nsamp": 8, "thr": 5, "nmono": 1, "mode": "var"},
           "EdgeMultiMCtwo.cfg": {"npre": 4, "nsamp": 8, "thr": 5, "nmono": 1, "mode": "two"},
           "EdgeMultiMCiso.cfg": {"npre": 4, "nsamp": 8, "thr": -5, "nmono": 2, "mode": "iso"},
@@ -146,11 +183,17 @@ def run(ctx):
     rng = random.Random(ctx.seed + 800)
     nr = 250 if q else 5000
     scens += [random_scen(rng) for _ in range(nr)]
+    ncut = 0
+    for _ in range(5 if q else 60):
+        cs = all_cuts_scens(rng)
+        ncut += len(cs)
+        scens += cs
+    ctx.notes["scenarios_all_two_block_cuts"] = ncut
     nl = 150 if q else 3000
     scens += [relen_scen(rng) for _ in range(nl)]
     ctx.notes["scenarios_relen"] = nl
     ctx.notes["scenarios_random"] = nr
-    ctx.notes["scenarios_from_model"] = len(scens) - nr - nl
+    ctx.notes["scenarios_from_model"] = len(scens) - nr - nl - ncut
     sc.validate(ctx, scens, PREFIXES)
     return vlib.finish(ctx, LEVEL, RULE,
                        ["the zero-threshold refinement is a floating-point fit: an oracle (shift -1/0/+1) in the model, the real function in the replayed executions",
